@@ -57,6 +57,22 @@ func runC16(c *core.Ctx) {
 			c.Broken("C16-PARSE", key, "parser not found")
 			continue
 		}
+		// a parser that only forwards to a sibling (`x, err := ReadTLVs(r); if err != nil { return nil }; return x`) is that sibling
+		if d := delegatesTo(sf); d != nil {
+			found := false
+			for _, s0 := range sums {
+				if s0.key == r.rel+"."+d.Name() {
+					s0.key = key
+					sums = append(sums, s0)
+					found = true
+					c.OK("C16-PARSE", key+"#store", c.Prog.Pos(sf.Pos()), "forwards to "+d.Name()+": the parameters reported are the sibling's, a failure of the sibling yields nil")
+					c.OK("C16-PARSE", key+"#delegate", c.Prog.Pos(sf.Pos()), "one call of the sibling on the same reader, no other effect")
+				}
+			}
+			if found {
+				continue
+			}
+		}
 		sum := summariseReaderParser(c, sf, key)
 		sums = append(sums, sum)
 		checkSites(c, "C16-PARSE", []*ssa.Function{sf})
@@ -95,6 +111,81 @@ func runC16(c *core.Ctx) {
 	} else {
 		c.Broken("C16-ACCESSOR", "smgp.Options.TP_udhi", "accessor not found")
 	}
+}
+
+// delegatesTo: fn's whole effect is one call of a module function on its own (single) parameter; it returns that
+// function's first result where the error result was found nil and nil where it was found non-nil.
+func delegatesTo(fn *ssa.Function) *ssa.Function {
+	if len(fn.Params) != 1 {
+		return nil
+	}
+	var call *ssa.Call
+	for _, b := range fn.Blocks {
+		for _, ins := range b.Instrs {
+			switch x := ins.(type) {
+			case *ssa.Call:
+				if call != nil {
+					return nil
+				}
+				call = x
+			case *ssa.Store, *ssa.MapUpdate, *ssa.Go, *ssa.Defer, *ssa.Send, *ssa.Panic:
+				return nil
+			}
+		}
+	}
+	if call == nil || call.Call.StaticCallee() == nil || call.Call.StaticCallee().Pkg != fn.Pkg || len(call.Call.Args) != 1 || call.Call.Args[0] != ssa.Value(fn.Params[0]) {
+		return nil
+	}
+	callee := call.Call.StaticCallee()
+	if callee.Signature.Results().Len() != 2 || !isErrorType(callee.Signature.Results().At(1).Type()) {
+		return nil
+	}
+	ps, err := paths.Enumerate(fn, paths.Config{})
+	if err != nil {
+		return nil
+	}
+	nOK, nErr := 0, 0
+	for _, p := range ps {
+		if p.Aborted != "" || len(p.Results) != 1 {
+			return nil
+		}
+		errNil, errSet := false, false
+		for _, e := range p.Events {
+			if e.Kind != paths.EvBranch {
+				continue
+			}
+			if subj, neq, ok := nilTest(e.Cond); ok {
+				if ex, isE := e.Resolve(subj).(*ssa.Extract); isE && ex.Tuple == ssa.Value(call) && ex.Index == 1 {
+					if neq == e.Taken {
+						errSet = true
+					} else {
+						errNil = true
+					}
+					continue
+				}
+			}
+			return nil // a branch on anything else
+		}
+		switch {
+		case errNil:
+			ex, isE := p.Results[0].(*ssa.Extract)
+			if !isE || ex.Tuple != ssa.Value(call) || ex.Index != 0 {
+				return nil
+			}
+			nOK++
+		case errSet:
+			if !paths.IsNilConst(p.Results[0]) {
+				return nil
+			}
+			nErr++
+		default:
+			return nil
+		}
+	}
+	if nOK == 0 || nErr == 0 {
+		return nil
+	}
+	return callee
 }
 
 // widthRule: size == length+4 as linear forms, no wrap, sites discharged, same length field written.
@@ -518,9 +609,6 @@ func sliceParserRule(c *core.Ctx, fn *ssa.Function, sums []parserSummary) {
 		if cal == nil || cal.Name() != "Uint16" || cal.Signature.Recv() == nil || !strings.Contains(cal.Signature.Recv().Type().String(), "bigEndian") {
 			return prover.Lin{}, nil, false
 		}
-		if _, ok := call.Call.Args[1].(*ssa.Slice); !ok {
-			return prover.Lin{}, nil, false
-		}
 		root, off := origin(call.Call.Args[1], 0)
 		return off, root, true
 	}
@@ -880,6 +968,7 @@ func lenRule(c *core.Ctx) {
 		}
 	}
 	startBad := false
+	headsUpFront, valueOnly := false, false
 	for _, l := range p.Loops() {
 		for _, ins := range l.Header.Instrs {
 			ph, isPhi := ins.(*ssa.Phi)
@@ -890,10 +979,22 @@ func lenRule(c *core.Ctx) {
 				if !l.Blocks[pred] {
 					if k0, isK := constInt(ph.Edges[k]); !isK || k0 != 0 {
 						startBad = true
+						// the other spelling: start at 4*len(o), add len(entry.value) per entry
+						d0 := p.LinOf(ph.Edges[k]).Add(p.LenOf(fn.Params[0]).Scale(4), -1)
+						if d0.IsConst() && d0.C == 0 {
+							startBad, headsUpFront = false, true
+						}
 					}
 					continue
 				}
 				d := p.LinOf(ph.Edges[k]).Add(p.LinOf(ph), -1)
+				if d.C == 0 && len(d.T) == 1 {
+					for a, coef := range d.T {
+						if coef == 1 && strings.HasPrefix(a, "len:") {
+							valueOnly = true
+						}
+					}
+				}
 				// 4 + len(entry.value)
 				if d.C == 4 && len(d.T) == 1 {
 					for a, coef := range d.T {
@@ -904,6 +1005,9 @@ func lenRule(c *core.Ctx) {
 				}
 			}
 		}
+	}
+	if headsUpFront || valueOnly {
+		ok = headsUpFront && valueOnly && !ok // all four-octet heads counted up front, the loop adds the values only
 	}
 	c.Decide(ok && nr == 1 && !startBad, "C16-SERIAL", key, pos, "starts at 0, adds 4 + len(value) per entry over one range", "Len does not start at 0 and add 4+len(value) for every entry of one range over the map")
 }
@@ -960,6 +1064,36 @@ func addRule(c *core.Ctx, rel, typ string) {
 				}
 				return true
 			})
+			// (SSA) the method stores into the receiver's map through a local: m := *t; ...; m[k] = v
+			if fnObj, _ := pkg.TypesInfo.Defs[fd.Name].(*types.Func); !mutates && fnObj != nil {
+				if sf := c.Prog.SSAFunc(fnObj); sf != nil && len(sf.Params) > 0 {
+					recv := ssa.Value(sf.Params[0])
+					var fromRecv func(v ssa.Value, depth int) bool
+					fromRecv = func(v ssa.Value, depth int) bool {
+						if v == recv || depth > 4 {
+							return v == recv
+						}
+						switch x := v.(type) {
+						case *ssa.UnOp:
+							return x.Op == token.MUL && x.X == recv
+						case *ssa.Phi:
+							for _, e := range x.Edges {
+								if fromRecv(e, depth+1) {
+									return true
+								}
+							}
+						}
+						return false
+					}
+					for _, b := range sf.Blocks {
+						for _, ins := range b.Instrs {
+							if mu, ok := ins.(*ssa.MapUpdate); ok && fromRecv(mu.Map, 0) {
+								mutates = true
+							}
+						}
+					}
+				}
+			}
 			if !mutates {
 				continue
 			}
@@ -1026,7 +1160,7 @@ func addRule(c *core.Ctx, rel, typ string) {
 					for _, e := range p.Events {
 						switch e.Kind {
 						case paths.EvBranch:
-							if subj, neq, ok := nilTest(e.Cond); ok && isRecvLoad(subj) && neq == e.Taken {
+							if subj, neq, ok := nilTest(e.Cond); ok && isRecvLoad(e.Resolve(subj)) && neq == e.Taken {
 								nonNil = true
 							}
 						case paths.EvInstr:
@@ -1037,10 +1171,26 @@ func addRule(c *core.Ctx, rel, typ string) {
 									nonNil = isMk
 								}
 							case *ssa.MapUpdate:
-								if isRecvLoad(x.Map) {
+								m := e.Resolve(x.Map)
+								switch {
+								case isRecvLoad(m):
 									updates++
 									if !nonNil {
 										bad = "a path stores into the container's map without having created it when it is nil: adding to an empty container panics"
+									}
+								default:
+									if mk, isMk := m.(*ssa.MakeMap); isMk {
+										// a fresh map: it must also be stored through the receiver on this path
+										updates++
+										published := false
+										for _, e2 := range p.Events {
+											if st, isS := e2.Instr.(*ssa.Store); isS && e2.Kind == paths.EvInstr && st.Addr == recv && e2.Resolve(st.Val) == ssa.Value(mk) {
+												published = true
+											}
+										}
+										if !published {
+											bad = "a path stores the entry into a fresh map that is never stored through the receiver: the caller does not see it"
+										}
 									}
 								}
 							}
